@@ -68,6 +68,7 @@ class SubCheck:
     enumerate_cases: Callable[[str, int, int], Any] | None = None  # (tier, shard, nshards) -> iterable of cases
     shards: int | None = None  # override number of shards for this sub-check
     exhaustive: bool = False  # enumeration covers its finite space completely
+    external: Callable[[str, int, int, int], Any] | None = None  # (tier, seed, shard, nshards) -> stats dict | None (other engine)
 
 
 @dataclass
@@ -172,6 +173,29 @@ def _run_sub_shard(check: Check, sub: SubCheck, tier: str, seed: int, shard: int
                 best["t0"] = time.monotonic()
             best["case"], best["viol"], best["hash"] = case, unknown, case_hash(case)
             raise _Found(unknown[0].msg)
+
+    if sub.external is not None:
+        ext = sub.external(tier, seed, shard, nshards)
+        if ext is None:
+            stats["distinct_nontrivial"] = 0
+            stats["nontrivial_hashes"] = []
+            return stats
+        stats["evaluations"] = ext.get("evaluations", 0)
+        stats["samples"] = ext.get("samples", [])[:3]
+        stats["classes"] = ext.get("classes", {})
+        stats["errors"] = ext.get("errors", [])
+        # distinct non-trivial inputs cannot be hashed across a libFuzzer process boundary: count conservatively
+        hashes = {case_hash(c) for c in ext.get("nontrivial_cases", [])}
+        if ext.get("failure"):
+            again = evaluate(ext["failure"]["case"], counting=False)
+            if again:
+                stats["failure"] = {"case": ext["failure"]["case"],
+                                    "violations": [{"sub": v.sub, "msg": v.msg, "facts": v.facts} for v in again]}
+            else:
+                stats["errors"].append("external engine failure did not reproduce")
+        stats["distinct_nontrivial"] = len(hashes)
+        stats["nontrivial_hashes"] = sorted(hashes)
+        return stats
 
     # regression tier: saved cases (shrunk failures of earlier defects / seeded changes) are replayed first, library bypassed
     if shard == 0:
